@@ -192,7 +192,8 @@ fn checked_end_time(data: &Data, end: Bound<u64>) -> Result<Timestamp, Error> {
     let range = data.range().ok_or(Error::EmptyFile)?;
     let end_ts = match end {
         Bound::Included(ts) => ts,
-        Bound::Excluded(ts) => ts - 1,
+        // nothing lies before an exclusive upper bound of zero
+        Bound::Excluded(ts) => ts.checked_sub(1).ok_or(Error::StopBeforeData)?,
         Bound::Unbounded => *range.end(),
     };
     let end_ts = end_ts.min(*range.end());
